@@ -961,9 +961,10 @@ def execute(case):
             # Two inputs of ONE call that share their citation list objects (a record and the record
             # derived from it with `>>`) are outside C10's input space (section 3.3: citation lists
             # are not aliased between the features of one call); such a call is judged for purity
-            # and refinement only.  (It can only get past DuplicateModules when one of the two has
-            # its origin inside an overhang, where moclo's group extraction returns the two halves in
-            # the wrong order - an observation about C02/C16, which are not claimed here.)
+            # and refinement only.  (A module and its twin stop at DuplicateModules unless one of the two
+            # has its origin inside an overhang, where moclo's group extraction returns the two halves in
+            # the wrong order - an observation about C02/C16, which are not claimed here; the vector and
+            # its rotation handed in as a module, scenario `vec_twin`, get past map-building regularly.)
             if any((rd_.get("derive") or {}).get("from") in recs for rd_ in cat["pool"] if rd_["id"] in recs):
                 malformed = True
                 probes["call-with-a-record-and-its-rotation"] += 1
